@@ -50,7 +50,7 @@ def run_vx(unit_list, units, workdir):
                     it['helpers'] = True
                 if 'vec_receivers' in e.opts:
                     it['vec_receivers'] = e.opts['vec_receivers'].split(',')
-                for k in ('into_as', 'slice_before', 'ret_name', 'slice_from', 'frag_name', 'frag_params', 'frag_ret'):
+                for k in ('into_as', 'slice_before', 'ret_name', 'slice_from', 'slice_block', 'frag_name', 'frag_params', 'frag_ret'):
                     if k in e.opts:
                         it[k] = e.opts[k]
                 if 'opaque_fields' in e.opts:
